@@ -70,10 +70,15 @@ def run(tier):
                 ("G(5) x U, P in {2,3}, bound 1", [["--n", 5, "--alpha", "U", "--P", "2,3", "--bound", 1]]),
                 ("G(5) x A2, dim >= 5, signed + isometric entry points, P in {3,4,5}, default layout/schedule, default reduce outcome",
                  [["--n", 5, "--alpha", "A2", "--P", "3,4,5", "--bound", 0, "--min-dim", 5, "--outcome-bound", 0, "--variants", "signed_mpi,iso_tbb_mpi"]]),
+                ("G(5) with 5..7 edges x PM2 (every assignment of the distinct weights 2^0..2^(m-1): unique optima, no ties that could mask a lost candidate), mcb_sva_signed_mpi, P in {2,3}, default schedule",
+                 [["--n", 5, "--alpha", "PM2", "--min-m", 5, "--max-m", 7, "--P", "2,3", "--bound", 0, "--variants", "signed_mpi", "--outcome-bound", 0]]),
                 ("K6 x A2 (32768 weightings; dense branch |S| >= n, ranks with empty slices), mcb_sva_signed_mpi, P=4, default outcome",
                  [["--families", "K:6", "--alpha", "A2", "--P", "4", "--variants", "signed_mpi", "--bound", 0, "--wchunks", 64, "--outcome-bound", 0]])]
     else:
-        plan = [("G(0..4) x A2, P in {1,2,3,4}, all layouts m<=4 / id,rev,adjacent transpositions, bound 2, both baton orders",
+        plan = [("G(5) with 4..8 edges x PM2 and x PM (all assignments of distinct weights), all entry points, P in {2,3,4}, default schedule",
+                 [["--n", 5, "--alpha", a, "--min-m", 4, "--max-m", 8, "--P", "2,3,4", "--bound", 0, "--outcome-bound", 0] for a in ("PM2", "PM")]),
+                ("G(5) with 5..8 edges x A3, mcb_sva_signed_mpi, P in {2,3}, default schedule", [["--n", 5, "--alpha", "A3", "--min-m", 5, "--max-m", 8, "--P", "2,3", "--bound", 0, "--variants", "signed_mpi", "--outcome-bound", 0]]),
+                ("G(0..4) x A2, P in {1,2,3,4}, all layouts m<=4 / id,rev,adjacent transpositions, bound 2, both baton orders",
                  [["--n", n, "--alpha", "A2", "--P", "1,2,3,4", "--bound", 2, "--layouts", 1, "--baton-rev"] for n in range(0, 5)]),
                 ("G(4) x A3, P in {2,3}, bound 1", [["--n", 4, "--alpha", "A3", "--P", "2,3", "--bound", 1]]),
                 ("G(4) x U, P in {5,7}, bound 2", [["--n", 4, "--alpha", "U", "--P", "5,7", "--bound", 2]]),
